@@ -3,7 +3,7 @@
      T  lines: the parser the REAL generator emitted, read back into Layer-C programs, is compared
                STRUCTURALLY with gen_rule / gen_skip / the built-in closures of the extracted model
                (coq/Gen/GenCompile.v)                                                  -> kind "model"
-     case lines `<id> <rule> <input>\t<derive obs>\t<vm obs>`:
+     case lines `<id> <rule> <input>[ L]\t<derive obs>\t<vm obs>` (L: the VM was built with Vm::new_with_listener):
                derive vs VM directly (the property)                                    -> kind "spec"
                derive vs exec over gen_env, VM vs exec over vm_env (the two models)    -> kind "model"
    in_H (extracted) classifies every grammar; the share inside H is printed.                   *)
@@ -48,10 +48,12 @@ let () =
     | "R" :: _ -> ()
     | [case; d; v] ->
       (match String.split_on_char ' ' case with
-       | [id; rule; inp] ->
+       | id :: rule :: inp :: via when via = [] || via = ["L"] ->
          incr cases;
          let (extras, osexp, text, og, why) = Hashtbl.find gs id in
-         let full = Printf.sprintf "H=%s x=%d r=%s in=%s g=%s og=%s" (why_name why) (if extras then 1 else 0) rule inp text osexp in
+         (* `L`: the VM column is the answer of the VM built with Vm::new_with_listener (printed only when it differs from Vm::new's) *)
+         let via = if via = [] then "" else " vm=new_with_listener" in
+         let full = Printf.sprintf "H=%s x=%d r=%s in=%s%s g=%s og=%s" (why_name why) (if extras then 1 else 0) rule inp via text osexp in
          let d = norm d and v = norm v in
          if d = "Limit" || v = "Limit" then incr limited
          else begin
@@ -78,7 +80,7 @@ let () =
              else if why = 3 && erase_tags d <> erase_tags v then begin
                (* outside H only because of `#t = e?` / `#t = e*`, and the two back-ends differ in more than the labels *)
                incr spec_in_h; incr beyond_tags;
-               if !beyond_tags <= 4 then report "spec" (Printf.sprintf "H=beyond-C02-node-tag x=%d r=%s in=%s g=%s og=%s" (if extras then 1 else 0) rule inp text osexp) d v
+               if !beyond_tags <= 4 then report "spec" (Printf.sprintf "H=beyond-C02-node-tag x=%d r=%s in=%s%s g=%s og=%s" (if extras then 1 else 0) rule inp via text osexp) d v
              end
              else begin
                incr spec_known;
